@@ -280,6 +280,10 @@ func (s *Scan) NewResponse() proto.Message {
 func (s *Scan) DeserializeCellBlocks(m proto.Message, b []byte) (uint32, error) {
 	scanResp := m.(*pb.ScanResponse)
 	partials := scanResp.GetPartialFlagPerResult()
+	if l := len(scanResp.GetCellsPerResult()); l != len(partials) {
+		return 0, fmt.Errorf("scan response has %d partial flags for %d results",
+			len(partials), l)
+	}
 	scanResp.Results = make([]*pb.Result, len(partials))
 	var readLen uint32
 	for i, numCells := range scanResp.GetCellsPerResult() {
